@@ -67,6 +67,11 @@ func c15RefRoot(kvs []c15KV, depth int) [32]byte {
 
 func c15Gen(rt *rapid.T) c15Input {
 	n := rapid.OneOf(rapid.IntRange(0, 6), rapid.IntRange(0, 40), rapid.IntRange(0, 200)).Draw(rt, "n")
+	if rapid.IntRange(0, 59).Draw(rt, "large") == 0 {
+		// a realistic state: a thousand or more entries (one service with many items shares its
+		// leading key bits, so one side of the first branches is empty or a single leaf)
+		n = rapid.SampledFrom([]int{1000, 1023, 1024, 1025, 1500, 2048, 2500, 4100}).Draw(rt, "nlarge")
+	}
 	prefixBits := rapid.OneOf(rapid.Just(0), rapid.IntRange(0, 247), rapid.SampledFrom([]int{7, 8, 9, 240, 246, 247})).Draw(rt, "prefixBits")
 	prefix := rapid.SliceOfN(rapid.Byte(), 31, 31).Draw(rt, "prefix")
 	seen := map[string]bool{}
@@ -139,6 +144,16 @@ func c15Check(c *kit.Case, in c15Input) {
 	}
 	if len(in.KVs) == 0 {
 		c.Class("empty")
+	}
+	if len(in.KVs) >= 1000 {
+		c.Class("entries_ge_1000")
+		side := 0
+		for _, kv := range in.KVs {
+			side += c15RefBit(kv.K, 0)
+		}
+		if side <= 1 || side >= len(in.KVs)-1 {
+			c.Class("entries_ge_1000_first_bit_lopsided")
+		}
 	}
 	if nt {
 		c.NonTrivial()
